@@ -153,7 +153,7 @@ def tlc(wd, module, cfg=None, workers=None, env=None, timeout=1200, extra=(), xm
     """Run TLC on wd/module.tla. Returns TlcResult. Never raises on model failure."""
     res = TlcResult()
     md = os.path.join(wd, 'md_%s_%d_%d' % (tag or module, os.getpid(), random.randrange(1 << 30)))
-    cmd = ['java', '-XX:+UseParallelGC', '-Xmx' + xmx, '-cp', TLAJAR, 'tlc2.TLC', '-metadir', md, '-nowarning',
+    cmd = ['java', '-XX:+UseParallelGC', '-Xss64m', '-Xmx' + xmx, '-cp', TLAJAR, 'tlc2.TLC', '-metadir', md, '-nowarning',
            '-workers', str(workers or NCPU)]
     if cfg:
         cmd += ['-config', cfg]
@@ -311,11 +311,16 @@ def validate_trace(wd, module, cfg, trace_path, nsplit=None, timeout=1800, env=N
             consumed = max(0, r.diameter - 1)
             if consumed >= n and r.rc == 0:
                 acc += n; cur = hi; break
-            if r.error and 'ostcondition' not in r.out and not r.distinct:
-                infra.append('TLC error validating records %d..%d: %s' % (cur, hi, r.error)); last = r.out[-3000:]; break
-            if r.error and 'ostcondition' not in r.out and 'evaluating' in r.out:
-                # evaluation error inside a record: treat as rejection of that record (malformed / out of model)
-                pass
+            post_false = bool(re.search(r'Postcondition \S+ .* is false', r.out))
+            if not post_false:
+                # TLC stopped for a reason other than an unexplained record (evaluation error, stack overflow, bad
+                # JSON ...): an infrastructure problem of the validator, never a verdict about the implementation.
+                infra.append('TLC error validating records %d..%d (record %d not judged): %s' %
+                             (cur, hi, cur + min(consumed, n - 1), (r.error or 'rc=%s' % r.rc)))
+                last = r.out[-3000:]
+                acc += min(consumed, n - 1)
+                cur = cur + min(consumed, n - 1) + 1
+                continue
             consumed = min(consumed, n - 1)
             acc += consumed
             idx = cur + consumed
